@@ -48,6 +48,10 @@ VP_HARNESS(h_dup_blocks)
 {
   struct hwloc_topology *t = vp_mini_build();
   hwloc_obj_t opu = vp_mini.pu[0];
+  /* the complete_ sets are strict supersets of the sets (an offline PU#6 and a disallowed NUMA node #2 that are not in the tree):
+   * each of the four sets of every object then has its own content */
+  { hwloc_obj_t all[9]; unsigned na = 0; all[na++] = vp_mini.machine; for (unsigned i = 0; i < 2; i++) { all[na++] = vp_mini.pkg[i]; all[na++] = vp_mini.numa[i]; } for (unsigned i = 0; i < 4; i++) all[na++] = vp_mini.pu[i];
+    for (unsigned i = 0; i < 9; i++) { hwloc_bitmap_set(all[i]->complete_cpuset, 6); hwloc_bitmap_set(all[i]->complete_nodeset, 2); } }
   char *nm = malloc(NAMELEN + 1); VP_NONNULL(nm);
   /* concrete bytes: a symbolic byte could be NUL for symex, the copy's block would then have a symbolic size (an
    * array-theory object: the solver runs out of memory); the length is varied per harness instead */
